@@ -42,6 +42,7 @@ def cfg_json(cfg):
 def region_term(k, vals, env, cfg, extra=None):
     """region predicate of a known finding as a z3 Bool over the harness inputs (and extras)"""
     ns = {nm: v.t for nm, v in vals.items()}
+    ns.update({"in_" + nm: v.t for nm, v in vals.items()})      # (an input called n / r / P is shadowed by the configuration below)
     ns.update(notbit=lambda v: z3.And(v != 0, v != 1), isbit=lambda v: z3.Or(v == 0, v == 1))
     ns.update(And=z3.And, Or=z3.Or, Not=z3.Not, P=env.P, n=cfg.get("n", 4), r=cfg.get("r", 2), true=z3.BoolVal(True),
               false=z3.BoolVal(False), If=z3.If)
